@@ -17,6 +17,7 @@ import itertools, math, operator, inspect
 import numpy as np
 from mc import ref, alph
 from mc.core import call, HarnessError
+PI = math.pi
 
 PROP = 'C17'
 LEVEL = 'model_checking'
@@ -98,6 +99,19 @@ def make(kind, form='1d', alt=0):
         return (R2 if not alt else ref.rot2(-0.7)).copy()
     if kind == 'T2':
         return (T2 if not alt else ref.rt(ref.rot2(-0.7), (3.0, 1.0))).copy()
+    # values carrying rounding residues (what products and quarter turns leave behind): elements of 3e-15 and below
+    if kind == 'R3z':
+        R = ref.rotz(PI / 2) @ ref.rotx(PI if alt else 0.0)
+        R[0, 2] += 3e-15
+        return R
+    if kind == 'T3z':
+        return ref.rt(ref.rotz(PI / 2), (3e-15, 2.0 + alt, -1e-15))
+    if kind == 'R2z':
+        return ref.rot2(PI / 2 if not alt else PI)
+    if kind == 'T2z':
+        return ref.rt(ref.rot2(PI / 2), (3e-15, 2.0 + alt))
+    if kind == 'bnd':
+        return np.array([1.0, -1.0, -1.0, 1.0, 1.0 + alt, -1.0])          # each axis pair given as [max, min] or [min, max]
     if kind == 'so3m':
         return ref.skew([0.3, -0.4, 0.5])
     if kind == 'se3m':
@@ -139,6 +153,12 @@ def make(kind, form='1d', alt=0):
         if multi:
             o.data = [np.array([1.0 + i, 2.0, 3.0, 0.3, -0.2, 0.1]) for i in range(alt, alt + n)]
         return o
+    if k == 'SE3z':
+        return S.SE3(make('T3z', alt=alt))
+    if k == 'SE2z':
+        return S.SE2(make('T2z', alt=alt))
+    if k == 'SO3z':
+        return S.SO3(make('R3z', alt=alt), check=False)
     if k == 'SI':
         return S.SpatialInertia(2.0 + alt, [0.1, 0.2, 0.3], np.diag([1.0, 2.0, 3.0]))
     if k == 'PL':
@@ -247,10 +267,39 @@ def descriptors():
             continue
         consts = {i: eval(k[1:]) for i, k in enumerate(kinds) if k.startswith('=')}
         out.append(D('base.%s/%s' % (name, ','.join(kinds)), getattr(b, name), [k if not k.startswith('=') else 'c' for k in kinds], consts, site='base.' + name))
+        zk = [{'T3': 'T3z', 'T2': 'T2z', 'R3': 'R3z', 'R2': 'R2z'}.get(k, k) for k in kinds]
+        if zk != kinds:
+            out.append(D('base.%s/%s' % (name, ','.join(zk)), getattr(b, name), [k if not k.startswith('=') else 'c' for k in zk], consts, site='base.' + name))
+    # 2b. printing and formatting (output to a scratch stream): reading a value must not change it
+    import io
+    for name, kinds in (('trprint', ['T3']), ('trprint', ['R3']), ('trprint', ['T3z']), ('trprint', ['R3z']), ('trprint2', ['T2']), ('trprint2', ['R2']), ('trprint2', ['T2z']),
+                        ('trprint2', ['R2z'])):
+        for kw in ({}, {'orient': 'eul'}, {'orient': 'angvec'}, {'unit': 'rad'}, {'label': 'T'}):
+            if name == 'trprint2' and 'orient' in kw:
+                continue
+            ff = (lambda name, kw: (lambda T: getattr(b, name)(T, file=io.StringIO(), **kw)))(name, kw)
+            out.append(D('base.%s/%s/%s' % (name, ','.join(kinds), ','.join('%s=%s' % kv for kv in kw.items())), ff, kinds, {}, site='base.' + name))
+    def quiet(f):
+        def g(*a):
+            import contextlib
+            with contextlib.redirect_stdout(io.StringIO()):
+                return f(*a)
+        return g
+    for kind in ['SO2', 'SE2', 'SO3', 'SE3', 'SE3z', 'SE2z', 'SO3z', 'SE3*', 'SE2*', 'SO3*', 'SO2*']:
+        cn = type(make(kind)).__name__
+        out.append(D('%s.printline(None)/%s' % (cn, kind), quiet(lambda x: x.printline(file=None)), [kind], site=cn + '.printline'))
+        out.append(D('%s.printline(file)/%s' % (cn, kind), quiet(lambda x: x.printline(file=io.StringIO())), [kind], site=cn + '.printline'))
+        out.append(D('%s.printline(eul)/%s' % (cn, kind), quiet(lambda x: x.printline(file=io.StringIO(), orient='eul') if x.N == 3 else x.printline(file=io.StringIO(), unit='rad')), [kind], site=cn + '.printline'))
+    for kind in OBJ_KINDS + MULTI + ['SE3z', 'SE2z', 'SO3z']:
+        cn = type(make(kind)).__name__
+        out.append(D('str/%s' % kind, lambda x: str(x), [kind], site=cn + '.__str__'))
+        out.append(D('repr/%s' % kind, lambda x: __import__('re').sub(r'0x[0-9a-f]+', '0x', repr(x)), [kind], site=cn + '.__repr__'))      # (default object repr carries an address)
+    out.append(D('Plucker.intersect_volume/PL,bnd', lambda l, bnd: l.intersect_volume(bnd), ['PL', 'bnd'], {}, site='Plucker.intersect_volume'))
+    out.append(D('Plucker.intersect_volume/PL,bnd6', lambda l, bnd: l.intersect_volume(-2.0 * bnd), ['PL', 'bnd'], {}, site='Plucker.intersect_volume'))
     # 3. classes by reflection: properties and nullary methods, on single- and multi-valued receivers
     skip = {'plot', 'animate', 'printline', 'print', 'about', 'Rand', 'Alloc', 'Empty', 'simplify', 'plot_intersect_volume', 'intersect_volume', 'pop', 'clear',
             'reverse', 'copy', 'sort', 'count', 'index', 'remove', 'append', 'extend', 'insert', 'arghandler', 'binop', 'unop', 'isvalid', 'data'}
-    for kind in OBJ_KINDS + MULTI:
+    for kind in OBJ_KINDS + MULTI + ['SE3z', 'SE2z', 'SO3z']:
         o = make(kind)
         C = type(o)
         for an in sorted(set(dir(C))):
